@@ -89,10 +89,12 @@ var c14yield int64
 
 // c14hooks: no mutable state (the graph is shared between goroutines); optionally yields the processor from inside the parse
 func c14hooks(yieldEvery int64) *gram.Hooks {
+	// the terminals of these graphs use the context's keyword registry (lazy registration by a hand-written parser):
+	// every parse has its own context, so nothing of it may be shared between concurrent parses
 	if yieldEvery == 0 {
-		return &gram.Hooks{}
+		return &gram.Hooks{KeywordLeaves: true}
 	}
-	return &gram.Hooks{Around: func(e *gram.Expr, p parsley.Parser) parsley.Parser {
+	return &gram.Hooks{KeywordLeaves: true, Around: func(e *gram.Expr, p parsley.Parser) parsley.Parser {
 		return parser.Func(func(ctx *parsley.Context, lrc data.IntMap, pos parsley.Pos) (parsley.Node, data.IntSet, parsley.Error) {
 			if atomic.AddInt64(&c14yield, 1)%yieldEvery == 0 {
 				runtime.Gosched()
